@@ -47,7 +47,24 @@ func libFiles() []*File {
 			txt("r("), {K: "call", Call: &CallSpec{Name: ".show", Target: "lib.deep.show", AllData: true}}, txt(")"),
 		}},
 	}}
-	return []*File{lib}
+	// a namespace below the aliased one: {alias lib.deep} makes deep.sub.leaf mean lib.deep.sub.leaf.
+	sub := &File{Name: "sub.soy", NS: "lib.deep.sub", Tmpls: []*Tmpl{
+		{NS: "lib.deep.sub", Name: "leaf", Params: []Param{{"x", true}}, Body: []*Cmd{txt("s["), pr(bin("?:", vr("x"), S("nx"))), txt("]")}},
+	}}
+	return []*File{lib, sub}
+}
+
+// withLib returns main followed by the library files.
+func withLib(main *File, lib []*File) []*File { return append([]*File{main}, lib...) }
+
+// libSrcs adds the library files' sources to m and returns the file names in order (main first).
+func libSrcs(m map[string]string, lib []*File) []string {
+	names := []string{"main.soy"}
+	for _, f := range lib {
+		m[f.Name] = f.src()
+		names = append(names, f.Name)
+	}
+	return names
 }
 
 type c02case struct {
@@ -77,6 +94,7 @@ func c02Leaves() []*Cmd {
 		{K: "call", Call: &CallSpec{Name: "deep.binder", Target: "lib.deep.binder", Params: []CallParam{{Key: "x", Value: vr("x")}}}},
 		{K: "call", Call: &CallSpec{Name: "deep.show", Target: "lib.deep.show", Data: vr("m"), Params: []CallParam{{Key: "y", Content: []*Cmd{txt("p"), pr(vr("x"))}}}}},
 		{K: "call", Call: &CallSpec{Name: "deep.relay", Target: "lib.deep.relay", AllData: true, Params: []CallParam{{Key: "y", Value: vr("x"), Attr: true}}}},
+		{K: "call", Call: &CallSpec{Name: "deep.sub.leaf", Target: "lib.deep.sub.leaf", Params: []CallParam{{Key: "x", Value: vr("y")}}}},
 	}
 }
 
@@ -300,14 +318,14 @@ func checkC02(c *Ctx) {
 		}
 		t := &Tmpl{NS: "app.main", Name: "entry", Params: params, Body: body, Header: variant&1 == 1}
 		main := &File{Name: "main.soy", NS: "app.main", Aliases: []string{"lib.deep"}, Tmpls: []*Tmpl{t}}
-		files := []*File{main, lib[0]}
+		files := withLib(main, lib)
 		if rs := checkRules(files); len(rs) > 0 {
 			c.Count("generated_but_rule_violating", 1)
 			return // only rule-abiding programs here; C07 handles the others
 		}
-		order := []int{0, 1}
+		order := []int{0, 1, 2}
 		if variant&2 == 2 {
-			order = []int{1, 0}
+			order = []int{2, 1, 0}
 		}
 		// supply only declared params
 		var ds []data.Map
@@ -326,7 +344,8 @@ func checkC02(c *Ctx) {
 			}
 		}
 		res := runBundle(files, order, "app.main.entry", ds, exprIJ, 2000000)
-		cs := c02case{Files: map[string]string{"main.soy": main.src(), "lib.soy": lib[0].src()}, Entry: "app.main.entry", Sk: skCmds(body)}
+		cs := c02case{Files: map[string]string{"main.soy": main.src()}, Entry: "app.main.entry", Sk: skCmds(body)}
+		libSrcs(cs.Files, lib)
 		key := cs.Files["main.soy"] + fmt.Sprint(order)
 		sig := skCmds(body)
 		switch {
